@@ -437,6 +437,11 @@ def run_case(ctx, i, rng):
                 not (type(exc1) is type(exc0)):
             # an observer raised: the mechanism is where it raised
             key = 'outcome-changed.observer-raised:' + exc_key(exc1)
+            if type(exc1).__name__ == 'RepresenterError' and \
+                    len(exc1.args) > 1:
+                # the mechanism is the kind of object the YAML dumper was
+                # handed, not the line that called the dumper
+                key += '{%s}' % type(exc1.args[1]).__name__
         else:
             key = 'outcome-changed.%s.%s' % (observer_of(cfg, exc1), (
                 'success-became-failure' if exc0 is None and exc1 is not None
